@@ -170,8 +170,8 @@ claim('C15',
       'arbitrary stored version/index: every update carries IfVersion(version read from the object) (an unconditional update is flagged by the '
       'stub), of two writers of the same version the first succeeds with a larger version and the second gets a Conflict and leaves no trace, '
       'versions keep growing, created log entries get fresh increasing indexes, duplicate creates are refused.',
-      'NOT claimed: the second sentence (watch delivery, replay vs live events, cancellation) - real goroutine/channel concurrency, outside the '
-      'sequential executor (DESIGN.md section 7); v3 stores not yet covered. atomix primitive contract assumed. Trusted: go/ssa, executor, z3.',
+      'Also the v3 configuration store (Update / UpdateStatus, two writers of one version). NOT claimed: the second sentence (watch delivery, replay vs live '
+      'events, cancellation) - real goroutine/channel concurrency, outside the sequential executor (DESIGN.md section 7); the v3 transaction store is not covered. atomix primitive contract assumed. Trusted: go/ssa, executor, z3.',
       'SSA symbolic execution + SMT (z3) over stub primitives', 'DESIGN.md 6/C15, 7')
 claim('C20',
       'The transition relation of the REAL v3 transaction Reconciler (Reconcile -> reconcileChange/reconcileRollback -> commitChange, applyChange, '
